@@ -7,6 +7,22 @@ VERIF = os.path.dirname(os.path.dirname(os.path.abspath(__file__)))
 SRC = "/tmp/mut"
 
 NEEDS = {
+ "C09e": "an address that claimed before and fully unbonded (or bonds a second denom) sending Bond in the same block as the new epoch's start, then Claim",
+ "C09f": "the migrate path from exactly v0.9.0 with a partially claimed faulty epoch still inside the grace window",
+ "C10e": "take rate activated, then an UpdateConfig carrying only is_take_rate_active: Some(false), then a new epoch",
+ "C10f": "more than 10 registered pairs with pending fees in a pair beyond the tenth",
+ "C11e": "cw20 LP, ExpandPosition with a receiver who holds LP and an allowance towards the incentive contract (second frontend-helper deposit)",
+ "C11f": "a frontend-helper deposit whose inner ProvideLiquidity fails (slippage, mismatched funds, deposits disabled)",
+ "C12e": "native LP denom equal to a flow's reward denom and an under-paid OpenPosition followed by ClosePosition + Withdraw",
+ "C12f": "an instance migrated from 1.0.4/1.0.5 that holds a partially claimed flow",
+ "C13e": "an address claiming in epoch L, a flow opened in the same epoch with start L, a different address that never claimed querying then claiming later",
+ "C13f": "the same address opening or expanding a position after having closed one",
+ "C14e": "a Simulation query on the 3pool while an amplification ramp is in progress",
+ "C14f": "at least one pool with a non-zero burn fee on the simulated route",
+ "C15e": "3pool, cw20 offer through the Receive hook, belief_price far below the real price",
+ "C15f": "constant-product pair with ratio != 1:1, slippage_tolerance given, assets listed in reverse pool order",
+ "C16e": "a registered epoch hook and a RemoveHook sent by a non-admin (or the previous owner)",
+ "C16f": "CompleteLoan with an empty loaned_assets list sent by anyone but the router",
  "C01e": "a cw20-LP pool and the direct ExecuteMsg::WithdrawLiquidity{} entry with one coin of any denom (amount <= the pair's own locked LP)",
  "C01f": "non-zero uncollected protocol fees when QueryMsg::Pool is asked (reported reserves include the owed fees)",
  "C02e": "uncollected protocol fees accrued by an earlier swap, then a ReverseSimulation",
